@@ -55,7 +55,7 @@ type fixture struct {
 	files map[string]string // absolute path -> content
 }
 
-var fixtureInside = []string{"pub/a.txt", "pub/dir/index.html", "pub/dir/b", "pub/index.html", "pub/sp ace", "pub/..x", "pub/idx2/home.htm", "pub/deep/d2/index.html", "pub/static/a.txt", "pub/s/t/u.txt"}
+var fixtureInside = []string{"pub/x", "pub/s/one", "pub/a.txt", "pub/dir/index.html", "pub/dir/b", "pub/index.html", "pub/sp ace", "pub/..x", "pub/idx2/home.htm", "pub/deep/d2/index.html", "pub/static/a.txt", "pub/s/t/u.txt"}
 var fixtureOutside = []string{"secret.txt", "pubx/leak", "pub2/a.txt", "index.html", "a.txt"}
 
 func newFixture() *fixture {
@@ -314,7 +314,7 @@ func insideContent(fx *fixture, body string) bool {
 }
 
 var staticSegs = []string{"a.txt", "dir", "b", "noidx", "index.html", "..", "..", ".", "", "sp ace", "..x", "secret.txt", "pubx", "leak", "static", "staticfoo", "static..", "pub", "deep", "d2", "diridx", "idx2", "home.htm", "a.txt\x00", "%2e%2e", "pub2", "s", "t", "u.txt", "..\\secret.txt", "...", "a.txt/"}
-var staticPrefixes = []string{"", "static", "/static", "static/", "/static/", "/", "s/t", "//static//"}
+var staticPrefixes = []string{"", "static", "/static", "static/", "/static/", "/", "s/t", "//static//", ".well-known", "/.s/", "..data"}
 
 func genStaticCase(rng *rand.Rand) *staticCase {
 	c := &staticCase{
@@ -343,7 +343,7 @@ func genStaticCase(rng *rand.Rand) *staticCase {
 	if rng.Intn(4) > 0 && normPrefix != "" {
 		sb.WriteString(normPrefix)
 		if rng.Intn(8) == 0 {
-			sb.WriteString([]string{"foo", "..", "x/../..", "%2f"}[rng.Intn(4)]) // look-alike
+			sb.WriteString([]string{"foo", "..", "x/../..", "%2f", "x", ".", "s", "x/"}[rng.Intn(8)]) // look-alike (also a single byte that names an entry of the directory root)
 		}
 	}
 	n := rng.Intn(6)
@@ -374,6 +374,9 @@ func genStaticCase(rng *rand.Rand) *staticCase {
 		p = normPrefix + "/" + rel
 		if normPrefix == "/" {
 			p = "//" + rel
+		}
+		if rng.Intn(12) == 0 && strings.ContainsAny(normPrefix, ".") {
+			p = "/" + strings.TrimLeft(normPrefix, "/.") + "/" + rel // the prefix without its leading dots is another path
 		}
 	}
 	if p == "" || p[0] != '/' {
